@@ -120,6 +120,10 @@ class Check(PropertyCheck):
     # ---------------------------------------------------------------- oracle on the real objects
     def oracle(self, impl, scenario, index, line, out, ctx):
         res = []
+        if line == "bars" and out.startswith("held-chart-changed"):
+            res.append(("held-chart", "a chart the caller still held changed when the next chart was drawn: it now shows "
+                        + out[len("held-chart-changed "):]))
+            return res
         if line == "bars":
             sched = impl.dispatcher.schedule.schedule
             want = sorted(f"{1 + 10 * so.machine_id}:{so.start_time}:{so.end_time - so.start_time}:{so.job_id}"
